@@ -32,10 +32,10 @@ pub fn container_spec(container: Container, ctx: crate::gen::Ctx, cfg: FieldSpec
         }
     }
     match container {
-        Container::TupleStruct => TypeSpec { is_enum: false, variants: vec![VariantSpec { kind: VKind::Tuple, fields: fs }], style },
-        Container::NamedStruct => TypeSpec { is_enum: false, variants: vec![VariantSpec { kind: VKind::Named, fields: fs }], style },
-        Container::EnumTupleVariant => TypeSpec { is_enum: true, variants: vec![VariantSpec { kind: VKind::Unit, fields: vec![] }, VariantSpec { kind: VKind::Tuple, fields: fs }, VariantSpec { kind: VKind::Named, fields: vec![FieldSpec::plain(FTy::U8, 2)] }], style },
-        Container::EnumNamedVariant => TypeSpec { is_enum: true, variants: vec![VariantSpec { kind: VKind::Unit, fields: vec![] }, VariantSpec { kind: VKind::Named, fields: fs }, VariantSpec { kind: VKind::Tuple, fields: vec![FieldSpec::plain(FTy::U8, 2)] }], style },
+        Container::TupleStruct => TypeSpec { is_enum: false, variants: vec![VariantSpec { kind: VKind::Tuple, fields: fs }], style, shared_arg: None },
+        Container::NamedStruct => TypeSpec { is_enum: false, variants: vec![VariantSpec { kind: VKind::Named, fields: fs }], style, shared_arg: None },
+        Container::EnumTupleVariant => TypeSpec { is_enum: true, variants: vec![VariantSpec { kind: VKind::Unit, fields: vec![] }, VariantSpec { kind: VKind::Tuple, fields: fs }, VariantSpec { kind: VKind::Named, fields: vec![FieldSpec::plain(FTy::U8, 2)] }], style, shared_arg: None },
+        Container::EnumNamedVariant => TypeSpec { is_enum: true, variants: vec![VariantSpec { kind: VKind::Unit, fields: vec![] }, VariantSpec { kind: VKind::Named, fields: fs }, VariantSpec { kind: VKind::Tuple, fields: vec![FieldSpec::plain(FTy::U8, 2)] }], style, shared_arg: None },
     }
 }
 
@@ -174,14 +174,19 @@ fn gen_m3(ch: &mut Ch, thorough: bool) -> Option<Case> {
         return None;
     }
     let ts = match shape {
-        0 => TypeSpec { is_enum: false, variants: vec![VariantSpec { kind: if n == 0 { VKind::Unit } else { VKind::Tuple }, fields }], style: KeyStyle::Distinct },
-        1 => TypeSpec { is_enum: false, variants: vec![VariantSpec { kind: VKind::Named, fields }], style: KeyStyle::Distinct },
-        2 => TypeSpec { is_enum: true, variants: vec![VariantSpec { kind: VKind::Tuple, fields: fields.clone() }, VariantSpec { kind: VKind::Unit, fields: vec![] }, VariantSpec { kind: VKind::Named, fields }], style: KeyStyle::Distinct },
+        0 => TypeSpec { is_enum: false, variants: vec![VariantSpec { kind: if n == 0 { VKind::Unit } else { VKind::Tuple }, fields }], style: KeyStyle::Distinct, shared_arg: None },
+        1 => TypeSpec { is_enum: false, variants: vec![VariantSpec { kind: VKind::Named, fields }], style: KeyStyle::Distinct, shared_arg: None },
+        2 => TypeSpec { is_enum: true, variants: vec![VariantSpec { kind: VKind::Tuple, fields: fields.clone() }, VariantSpec { kind: VKind::Unit, fields: vec![] }, VariantSpec { kind: VKind::Named, fields }], style: KeyStyle::Distinct, shared_arg: None },
         _ => {
             let rev: Vec<FieldSpec> = fields.iter().rev().cloned().collect();
-            TypeSpec { is_enum: true, variants: vec![VariantSpec { kind: VKind::Unit, fields: vec![] }, VariantSpec { kind: VKind::Named, fields }, VariantSpec { kind: VKind::Tuple, fields: rev }, VariantSpec { kind: VKind::Tuple, fields: vec![] }], style: KeyStyle::Distinct }
+            TypeSpec { is_enum: true, variants: vec![VariantSpec { kind: VKind::Unit, fields: vec![] }, VariantSpec { kind: VKind::Named, fields }, VariantSpec { kind: VKind::Tuple, fields: rev }, VariantSpec { kind: VKind::Tuple, fields: vec![] }], style: KeyStyle::Distinct, shared_arg: None }
         }
     };
+    // generic types additionally with an explicit shared bound that stops the default bounds
+    let mut ts = ts;
+    if ts.generic() && ch.flag() {
+        ts.shared_arg = Some("bound(T: ::core::cmp::Ord + ::core::cmp::PartialEq + ::core::cmp::Eq + ::core::cmp::PartialOrd)");
+    }
     Some(Case { gen: "m3", vector: ch.vector(), ts, derived, entry })
 }
 
@@ -278,7 +283,7 @@ pub fn evaluate_cases(ctx: &Ctx, rep: &mut Report, cases: &[Case], hash_only: bo
     for (k, &i) in run_idx.iter().enumerate() {
         let c = &cases[i];
         let r = &res[k];
-        let text = format!("{} {} {}", c.entry.name(), names(&c.derived).join(","), items[i]);
+        let text = format!("{} {}{} {}", c.entry.name(), names(&c.derived).join(","), c.ts.shared_arg.map(|a| format!(", {a}")).unwrap_or_default(), items[i]);
         let has_attr = c.ts.variants.iter().any(|v| v.fields.iter().any(|f| !f.combo.is_plain()));
         let detail = |extra: serde_json::Value| json!({"gen": c.gen, "tier": ctx.tier.name(), "vector": c.vector, "entry": c.entry.name(), "derived": names(&c.derived), "item": items[i], "observation": extra});
         if !r.compiled() {
